@@ -81,8 +81,9 @@ func (v *Vue) evaluate(ctx VueContext, nodes []*html.Node, depth int) ([]*html.N
 				continue
 			}
 
-			// Handle slot elements
-			if tag == "slot" {
+			// Handle slot elements (a slot that is a member of a v-if chain is
+			// chosen by the chain first, see evaluateNodeAsElement)
+			if tag == "slot" && !helpers.HasAttr(node, "v-if") && !helpers.HasAttr(node, "v-else-if") && !helpers.HasAttr(node, "v-else") {
 				slotResult, err := v.evalSlot(ctx, node, ctx.SlotScope)
 				if err != nil {
 					return nil, err
